@@ -197,7 +197,10 @@ class Term(Node):
         return All(self)
 
     def isin(self, arg: list | tuple | set | "Term") -> "ContainsCriterion":
-        if isinstance(arg, (list, tuple, set)):
+        if isinstance(arg, set):
+            # a set has no order of its own: written in one that does not change with the process' hash seed
+            arg = sorted(arg, key=repr)
+        if isinstance(arg, (list, tuple)):
             return ContainsCriterion(self, Tuple(*arg))
         return ContainsCriterion(self, arg)
 
